@@ -44,18 +44,12 @@ def gen_mps_case(rng, idx):
     return dict(kind='mps', seed=rng.randrange(1 << 30), L=rng.choice([2, 3, 4]), ntrafo=5)
 
 
-CORPUS = [
-    # change_charge on a tensor whose leg has charges outside [0, new_mod): the pure-Python make_valid wrote into leg.charges
-    dict(kind='hist', seed=12345, nsteps=6, only=['charge', 'copy'], narr=2,
-         legs=[dict(mods=[1], slices=[0, 1, 2, 3, 4, 5], charges=[[0], [1], [2], [3], [4]], qconj=1, ctor='qind'),
-               dict(mods=[1], slices=[0, 2, 3], charges=[[-1], [3]], qconj=-1, ctor='qind'),
-               dict(mods=[1], slices=[0, 1, 3], charges=[[2], [5]], qconj=1, ctor='init')]),
-    dict(kind='hist', seed=777, nsteps=10, only=['copy', 'itranspose', 'setitem_scalar', 'iscale', 'iadd'], narr=2,
-         legs=[dict(mods=[2], slices=[0, 1, 3], charges=[[0], [1]], qconj=1, ctor='qind'),
-               dict(mods=[2], slices=[0, 2, 3], charges=[[1], [0]], qconj=-1, ctor='qind'),
-               dict(mods=[2], slices=[0, 1, 2], charges=[[1], [1]], qconj=1, ctor='init')]),
-    dict(kind='mps', seed=1, L=4, ntrafo=8),
-]
+def load_corpus():
+    """minimised past failures / witnesses, replayed first (corpus/C03/*.json)"""
+    out = []
+    for f in sorted((core.CORPUS_DIR / 'C03').glob('*.json')):
+        out.append(json.loads(f.read_text()))
+    return out
 
 
 def canon(fps):
@@ -101,29 +95,58 @@ def first_diff(a, b, path=''):
     return f'{path}: {a!r} vs {b!r}'[:300]
 
 
+INPLACE_OPS = ('iadd_prefactor_other', 'iscale_prefactor', 'itranspose', 'iswapaxes', 'iscale_axis', 'iproject',
+               'ipurge_zeros', 'iconj', 'ibinary_blockwise', 'ireplace_label')
+
+
 def nontrivial(r):
     ops = r.get('ops', [])
-    inplace = any(o in ('iadd_prefactor_other', 'iscale_prefactor', 'itranspose', 'iswapaxes', 'iscale_axis', 'iproject',
-                        'ipurge_zeros', 'iconj', 'ibinary_blockwise') or o.startswith('setitem') for o in ops)
+    inplace = any(o in INPLACE_OPS or o.startswith('setitem') for o in ops)
     shallow = any(o in ('copy.shallow', 'add_trivial_leg', 'replace_label', 'astype.nocopy', 'gauge_total_charge',
                         'concatenate.nocopy', 'neg') for o in ops)
     return inplace and shallow and r.get('nobj', 0) >= 3
 
 
+def safe_run(cases, configs, nproc):
+    """twoconf.run, but a worker process that dies (segmentation fault inside the compiled kernels after a tensor was
+    corrupted, ...) is narrowed down to the history that kills it instead of aborting the whole check"""
+    try:
+        return twoconf.run('harness.c03_worker', cases, configs=configs, nproc=nproc)
+    except twoconf.WorkerError as e:
+        if 'rc=-' not in str(e) and 'rc=1' not in str(e):
+            raise
+        out = {}
+        for cfg in configs:
+            out[cfg] = dict(meta={}, results=_bisect(cases, cfg))
+        return out
+
+
+def _bisect(cases, cfg):
+    try:
+        return twoconf.run('harness.c03_worker', cases, configs=(cfg,), nproc=min(8, max(1, len(cases) // 20)))[cfg]['results']
+    except twoconf.WorkerError as e:
+        if len(cases) == 1:
+            return [{'died': str(e)[:600]}]
+        h = len(cases) // 2
+        return _bisect(cases[:h], cfg) + _bisect(cases[h:], cfg)
+
+
 def evaluate(ctx, cases, use_model=True, configs=('cy', 'py')):
     res = core.Result()
-    runs = twoconf.run('harness.c03_worker', cases, configs=configs, nproc=8 if ctx.quick else 14)
+    runs = safe_run(cases, configs, 8 if ctx.quick else 14)
     lines, where = [], []
     if use_model:
         for cfg in configs:
             for i, case in enumerate(cases):
                 r = runs[cfg]['results'][i]
-                if 'crash' not in r and r.get('steps'):
+                if 'crash' not in r and 'died' not in r and r.get('steps'):
                     lines.append(dict(cy=(cfg == 'cy'), steps=r['steps']))
                     where.append((cfg, i))
     models = dict(zip(where, core.run_driver('C03', lines))) if lines else {}
     for i, case in enumerate(cases):
         ref = runs[configs[0]]['results'][i]
+        if 'died' in ref or 'crash' in ref:
+            ref = runs[configs[-1]]['results'][i]
         res.note_case(case, nontrivial(ref) or case.get('kind') == 'mps')
         res.count('kind=' + case.get('kind', 'hist'))
         for o in ref.get('ops', []):
@@ -131,6 +154,11 @@ def evaluate(ctx, cases, use_model=True, configs=('cy', 'py')):
         failed = False
         for cfg in configs:
             r = runs[cfg]['results'][i]
+            if 'died' in r:
+                res.fail('property', 'c03.interpreter-died', f'[{cfg}] the interpreter running this history of public '
+                         'operations was killed (memory corruption): ' + r['died'], case)
+                failed = True
+                continue
             if 'crash' in r:
                 res.fail('correspondence', 'c03.worker-crash', f'[{cfg}] ' + r['crash'], case)
                 failed = True
@@ -194,15 +222,20 @@ def cases_for(ctx, tag, n_hist, n_mps):
 def run(ctx):
     res = core.Result()
     if ctx.quick:
-        cases = list(CORPUS) + cases_for(ctx, 'main', 1300, 16)
+        cases = load_corpus() + cases_for(ctx, 'main', 1300, 16)
     else:
-        cases = list(CORPUS) + cases_for(ctx, 'main', 30000, 300)
+        cases = load_corpus() + cases_for(ctx, 'main', 16000, 200)
     res.merge(evaluate(ctx, cases))
+    ops = {k[3:]: v for k, v in res.hist.items() if k.startswith('op=')}
+    res.extra['operations_exercised'] = len(ops)
+    res.extra['inplace_steps'] = sum(v for k, v in ops.items() if k in INPLACE_OPS or k.startswith('setitem'))
+    res.extra['rejected_steps'] = sum(v for k, v in ops.items() if k.startswith('rejected'))
+    res.extra['kernel_configurations'] = ['cy (fresh compiled build)', 'py (TENPY_NO_CYTHON=1)']
     return res
 
 
 def search(ctx, reasons):
-    cases = list(CORPUS) + cases_for(ctx, 'search', 600, 16)
+    cases = load_corpus() + cases_for(ctx, 'search', 600, 16)
     return evaluate(ctx, cases, use_model=False)
 
 
